@@ -249,12 +249,15 @@ class BosonicBackend(BaseBosonic):
                             "Ket and DensityMatrix preparation not implemented in the bosonic backend."
                         )
 
-                    # If a new mode is added in the program context, then add it here
+                    # If new modes are added in the program context, then add them here
+                    # (once per New command) and start each of them in the vacuum state
                     elif isinstance(cmd.op, _New_modes):
-                        cmd.op.apply(cmd.reg, self)
+                        if reg == new_labels[0]:
+                            cmd.op.apply(cmd.reg, self)
                         init_weights.append([0])
                         init_means.append([0])
                         init_covs.append([0])
+                        weights, means, covs = np.array([1], dtype=complex), vac_means, vac_covs
 
                     # The rest of the preparations are gaussian.
                     # TODO: initialize with Gaussian |vacuum> state
